@@ -7,10 +7,12 @@ from uecheck.facts import Facts
 from uecheck import canonsum
 F = Facts(os.path.join("/verif/.work", sys.argv[1]), None)
 R = canonsum.load_reference()
+blk = [b for b in os.environ.get("BLOCK", "").split(",") if b]
+F.noinline = R.noinline = frozenset(fid for fid in F.fns if any(b in fid for b in blk))
 sc, sr = canonsum.Summariser(F), canonsum.Summariser(R)
 W = int(os.environ.get("W", "900"))
 for fid, f in sorted(F.fns.items()):
-    if not any(a in fid for a in sys.argv[2:]) or f.is_closure:
+    if not any(a in fid for a in sys.argv[2:]) or (f.is_closure and not os.environ.get("CLO")):
         continue
     g = R.fns.get(fid)
     if g is None:
